@@ -135,6 +135,25 @@ fn constant_rich() -> Vec<String> {
             }
         }
     }
+    // values nested by folded calls: the source is flat, the constant is as deep as the chain is long
+    for k in [1usize, 8, 20, 30, 31, 32, 40, 59, 60, 61, 62, 63, 64, 70, 100, 200] {
+        v.push(format!("[1]{}", ".map(x, [x])".repeat(k)));
+        v.push(format!("[1]{}", ".map(x, {'k': x})".repeat(k)));
+        v.push(format!("[y]{}", ".map(x, [x])".repeat(k)));
+        v.push(format!("[[1]{}, y]", ".map(x, [x])".repeat(k)));
+    }
+    // doubles whose shortest decimal spelling a fast parser reads back one ulp off, leap seconds
+    for c in ["31.245270191439438", "5e-324", "1.7976931348623157e308", "0.1 + 0.2", "2.2250738585072014e-308", "9007199254740993.0", "1e23", "8.41e21", "4.35", "0.3", "123456789.12345678", "1.0 / 3.0"] {
+        v.push(c.to_string());
+        v.push(format!("x == {}", c));
+        v.push(format!("string({})", c));
+    }
+    for c in ["timestamp('2016-12-31T23:59:60Z')", "timestamp('2016-12-31T23:59:60.500Z')", "timestamp('2015-06-30T23:59:60Z')"] {
+        v.push(c.to_string());
+        v.push(format!("[{}][0] == timestamp('2017-01-01T00:00:00Z')", c));
+        v.push(format!("string({})", c));
+        v.push(format!("{} < timestamp('2017-01-01T00:00:00.250Z')", c));
+    }
     // folded type constants of every type, and identifiers of every lexical shape among the parameters
     for c in ["type([1])", "type({})", "type({'a': 1})", "type(null)", "type(1u)", "type(1.5)", "type(b'a')", "type(true)", "type(type(1))", "type(timestamp(0))", "type(duration('1s'))", "type('a')", "[type([]), type(null)]", "x == type([1])"] {
         v.push(c.to_string());
@@ -426,7 +445,7 @@ pub fn run(t: Tier) -> i32 {
     let mut rep = Report::new(ID, t, "exploration");
     let sp = Space::new(t);
     rep.rule = format!(
-        "programs: {} programs = the C10 program set (C09's templates in every literal/variable mask, logic trees, matches, f-strings, macros, chains: every ByteCode variant and nested code blocks) plus {} constant-rich programs (every serialisable value variant with boundary payloads - int/uint extremes, +-0.0, +-inf, NaN, subnormal, strings with quotes/NUL/non-BMP, all 256 bytes, nested lists and maps, types, timestamps and durations at millisecond resolution incl. negative and extreme - and every error constant the folder produces, each alone, in a list, a map, a comparison, a macro, a ternary and a coalesce; folded maps of 2 and 12 keys under filter/map forms whose body fails with a different class on different keys; every alternation of two of 9 nesting constructs - calls, method calls, macros, lists, maps, parentheses, coalesce, ?:, match arms - at every depth 1..32 with a variable and with a constant at the bottom, every fourth depth also inside an f-string hole: as deep as the parser accepts; folded constants only a call can produce (double('-0.0'), infinities, NaN, a subnormal); branches of 200, 40000 and 70000 instructions under ?:, ||, && and match, run with the bindings that take and that skip the long jump) x {{serde_json, bincode}}: serialization and deserialization succeed, source and parameter set are equal, a second round trip has the same bytes, and original and round-tripped program give the same value or the same error kind under 5 bindings of their variables (1, 'a', true, 0, unbound); a program holding a map constant is read back 8 times from the same bytes (every reading builds a new map) and each reading is compared. Non-trivial = every compiled program; distinct by source",
+        "programs: {} programs = the C10 program set (C09's templates in every literal/variable mask, logic trees, matches, f-strings, macros, chains: every ByteCode variant and nested code blocks) plus {} constant-rich programs (every serialisable value variant with boundary payloads - int/uint extremes, +-0.0, +-inf, NaN, subnormal, strings with quotes/NUL/non-BMP, all 256 bytes, nested lists and maps, types, timestamps and durations at millisecond resolution incl. negative and extreme - and every error constant the folder produces, each alone, in a list, a map, a comparison, a macro, a ternary and a coalesce; folded maps of 2 and 12 keys under filter/map forms whose body fails with a different class on different keys; every alternation of two of 9 nesting constructs - calls, method calls, macros, lists, maps, parentheses, coalesce, ?:, match arms - at every depth 1..32 with a variable and with a constant at the bottom, every fourth depth also inside an f-string hole: as deep as the parser accepts; values nested 1..200 deep by chains of folded calls, doubles a fast parser reads back one ulp off, leap-second texts, folded type constants of every type, identifiers of every lexical shape as parameters, timestamps before the epoch with a millisecond part; folded constants only a call can produce (double('-0.0'), infinities, NaN, a subnormal); branches of 200, 40000 and 70000 instructions under ?:, ||, && and match, run with the bindings that take and that skip the long jump) x {{serde_json, bincode}}: serialization and deserialization succeed, source and parameter set are equal, a second round trip has the same bytes, and original and round-tripped program give the same value or the same error kind under 5 bindings of their variables (1, 'a', true, 0, unbound); a program holding a map constant is read back 8 times from the same bytes (every reading builds a new map) and each reading is compared. Non-trivial = every compiled program; distinct by source",
         sp.srcs.len(),
         constant_rich().len()
     );
